@@ -64,6 +64,9 @@ fn ops_from_json(v: &serde_json::Value) -> Result<Vec<AnsOp>, String> {
 fn node_checks<C: Cfg>(n: &AnsNode<C>) -> Vec<(String, String)> {
     let mut out = vec![];
     let export = n.exports.last().unwrap();
+    if let Some(d) = crate::walk::ans_inspection_changes::<C>(n.coder) {
+        out.push((format!("AnsCoder | {} | a coder inspected between operations does not continue like the uninspected one", C::NAME), format!("init {:x?} ops {:?}: {d}", n.exports[0], n.ops)));
+    }
     if let Some(k) = n.last_dec {
         // the decode that led here must have returned the pushed symbol (part 1 of its model)
         if k != 1 {
@@ -517,6 +520,10 @@ pub fn run(report: &Report) {
     explore::<U16U64>(report, &import_inits::<U16U64>(), &small_alphabet::<U16U64>(), if q { 3 } else { 4 }, "mixed-precision-14");
     explore::<U32U64>(report, &import_inits::<U32U64>(), &small_alphabet::<U32U64>(), if q { 3 } else { 5 }, "mixed-precision-14");
     explore::<U64U128>(report, &import_inits::<U64U128>(), &small_alphabet::<U64U128>(), if q { 3 } else { 4 }, "mixed-precision-14");
+    // histories in which an encode is REFUSED by a bounded or failing backend: the refused encode is no encode,
+    // so everything pushed before must still pop in order and encoding must be able to continue (the
+    // fault enumeration of C09, judged here against C01's stack semantics)
+    super::c09::faults_part(report, if q { 5 } else { 7 });
     batch_forms::<U8U16>(report, if q { 3 } else { 4 });
     batch_forms::<U8U32>(report, if q { 3 } else { 4 });
     batch_forms::<U32U64>(report, 3);
